@@ -27,7 +27,7 @@ def setup(ctx):
         "for each client byte string (gemini +/- trailing garbage; titan with content in the same read, late, in "
         "pieces, zero-byte delete, longer than declared, oversize/corrupt lines) the single-read run is the "
         "baseline; every other segmentation (all 2^(n-1) for n<=13, all 1-/2-cut and random multi-cut beyond) x "
-        "schedule (burst, gaps while a 10 s handler runs, sync handler; each also behind an allowing middleware chain, instant or 3 s slow) must give the same client-visible "
+        "schedule (burst, gaps while a 10 s handler runs, sync handler, a 45 s handler that outlives the request timer; each also behind an allowing middleware chain, instant or 3 s slow) must give the same client-visible "
         "bytes, the same upload effect (spy arguments and real FileUploadHandler tree) and <=1 handler entry. "
         "L2 repeats it with ciphertext cuts on both TLS layers. distinct = (request class, schedule, number of "
         "cuts bucket, where the cut falls relative to CRLF/content); single-read baselines are trivial."
@@ -68,7 +68,8 @@ REQS = [
     (b"titan://h/f;size=x\r\ngemini://h/second\r\n", "bad-titan-then-valid"),
 ]
 
-SCHEDULES = ["burst-sync", "burst-async", "gaps-slow-handler", "burst-async+mw", "gaps-slow-handler+mw", "burst-sync+slow-mw"]
+SCHEDULES = ["burst-sync", "burst-async", "gaps-slow-handler", "burst-async+mw", "gaps-slow-handler+mw", "burst-sync+slow-mw",
+             "burst-45s-handler", "burst-45s-handler+slow-mw"]
 
 
 def run_once(data: bytes, cuts, schedule: str, real_upload_dir=None):
@@ -91,6 +92,12 @@ def run_once(data: bytes, cuts, schedule: str, real_upload_dir=None):
         elif schedule == "burst-async":
             hs = {"mode": "async", "delay": 0, "yield_once": True}
             us = {"delay": 0}
+            gap = 0
+        elif schedule == "burst-45s-handler":
+            # the handler outlives the 30 s request timer: however the request was segmented, the timer must
+            # be out of the way once the request is complete
+            hs = {"mode": "async", "delay": 45}
+            us = {"delay": 45}
             gap = 0
         else:
             hs = {"mode": "async", "delay": 10}
